@@ -150,6 +150,15 @@ fn fresh_shadow<'w>(sc: &Scanner, input: &'w str, at: usize, mode: usize) -> Fin
     s
 }
 
+/// History-free resume: a brand-new iterator of the same Scanner, `with_offset(at)` in `mode`. What it
+/// yields is by C10's statement what the iterator under test must yield from `at` on, whatever that
+/// iterator (and its substring shadow, which mirrors every call) went through before.
+fn fresh_resume<'w>(sc: &Scanner, input: &'w str, at: usize, mode: usize) -> FindMatches<'w> {
+    let mut s = sc.find_iter(input).with_offset(at);
+    s.set_mode(mode);
+    s
+}
+
 impl<'w> Exec for Exec10<'w> {
     fn step(&mut self, idx: usize, op: &Op) -> StepOut {
         match op {
@@ -226,6 +235,12 @@ impl<'w> Exec for Exec10<'w> {
                 let last_peek = st.last_peek.clone();
                 let out = match op {
                     Op::Next { .. } => {
+                        let fresh = if idx % 3 == 0 {
+                            let (sc, input, cursor, mode) = (st.sc.clone(), st.input, st.cursor, st.shadow.current_mode());
+                            guarded(|| fresh_resume(&sc, input, cursor, mode).next().map(|m| sut::tok(&m))).ok()
+                        } else {
+                            None
+                        };
                         let a = guarded(|| st.sut.next_tok());
                         let b = guarded(|| st.shadow.next().map(|m| sut::tok(&m)));
                         match (a, b) {
@@ -245,7 +260,13 @@ impl<'w> Exec for Exec10<'w> {
                                 let e = e.map(|t| sut::shift(t, st.base));
                                 if t != e {
                                     StepOut::fail(Obs::Tok(t), viol(format!("C10/stream/{}/next", st.since), idx, e, t))
+                                } else if fresh.is_some() && fresh != Some(t) {
+                                    mark("probe.fresh_resume_compared");
+                                    StepOut::fail(Obs::Tok(t), viol(format!("C10/stream/{}/next_vs_fresh_resume", st.since), idx, fresh.unwrap(), t))
                                 } else {
+                                    if fresh.is_some() {
+                                        mark("probe.fresh_resume_compared");
+                                    }
                                     if let Some(t) = t {
                                         st.cursor = t.2;
                                         if st.since == "after_reset" && st.nonzero_reset {
@@ -274,6 +295,10 @@ impl<'w> Exec for Exec10<'w> {
                         if st.sut.plain().is_none() {
                             return StepOut::skipped();
                         }
+                        let fresh = {
+                            let (sc, input, cursor, mode) = (st.sc.clone(), st.input, st.cursor, st.shadow.current_mode());
+                            guarded(|| sut::peek_obs(fresh_resume(&sc, input, cursor, mode).peek_n(*n))).ok()
+                        };
                         let a = guarded(|| sut::peek_obs(st.sut.plain().unwrap().peek_n(*n)));
                         let b = guarded(|| sut::peek_obs(st.shadow.peek_n(*n)));
                         match (a, b) {
@@ -291,7 +316,13 @@ impl<'w> Exec for Exec10<'w> {
                                 st.last_peek = Some((k.clone(), v.clone()));
                                 if (k.clone(), v.clone()) != (ek.clone(), ev.clone()) {
                                     StepOut::fail(Obs::Peek(k.clone(), v.clone()), viol(format!("C10/stream/{}/peek", st.since), idx, (ek, ev), (k, v)))
+                                } else if fresh.is_some() && fresh != Some((k.clone(), v.clone())) {
+                                    mark("probe.fresh_resume_compared");
+                                    StepOut::fail(Obs::Peek(k.clone(), v.clone()), viol(format!("C10/stream/{}/peek_vs_fresh_resume", st.since), idx, fresh.unwrap(), (k, v)))
                                 } else {
+                                    if fresh.is_some() {
+                                        mark("probe.fresh_resume_compared");
+                                    }
                                     StepOut::ok(Obs::Peek(k, v))
                                 }
                             }
